@@ -27,6 +27,14 @@ fn fwd(op: &Op, _ctx: &dyn Context, operands: &mut dyn CoordinateSet) -> usize {
     for i in 0..length {
         let (mut lam, phi) = operands.xy(i);
         lam -= lon_0;
+        // The cone is cut open opposite of the central meridian: A longitude
+        // given on the far side of the cut (e.g. -180 where lon_0 = 10) is
+        // the same meridian as the one 360 degrees further on
+        // (with a little slack, as in PROJ's adjlon, so values at the cut
+        // itself stay on their side of it despite rounding)
+        if lam.abs() > 3.14159265359 {
+            lam = crate::math::angular::normalize_symmetric(lam);
+        }
         let mut rho = 0.;
 
         // Close to one of the poles?
